@@ -11,6 +11,7 @@ import KinModel.Lemmas.C09LegacyLiteral
 import KinModel.Lemmas.C09Server
 import KinModel.Lemmas.C09Facts
 import KinModel.Lemmas.C09Refine
+import KinModel.Lemmas.C09LegacyRefine
 import KinModel.Lemmas.C09Gorilla
 import KinModel.Lemmas.C09Spec
 import KinModel.Lemmas.C09Witness
@@ -85,7 +86,7 @@ theorem docKeys_declared (d : Doc) (k : Key) :
 theorem legacy_match_sound_partial (ks : List Key) (m rem : Str) (k : Key) (vals : List Str)
     (h : legacyMatchOf ks m rem = some (k, vals)) (hne : ∀ v ∈ vals, v ≠ []) :
     k ∈ ks ∧ spell k.sufs vals = some (stripSlashes (m ++ ' ' :: rem)) := by
-  obtain ⟨ext, path, e0, e1, e3⟩ := match_sound.1 (legacyRootOf ks) _ [] (k, vals) h
+  obtain ⟨ext, path, e0, e1, e3, _⟩ := match_sound.1 (legacyRootOf ks) _ [] (k, vals) h
   simp only [List.nil_append] at e1
   subst e1
   rcases build_paths ks emptyNode (path, k) e0 with h0 | ⟨h1, h2⟩
@@ -97,7 +98,7 @@ theorem legacy_match_sound_partial (ks : List Key) (m rem : Str) (k : Key) (vals
 /-- whatever the trie returns is one of the keys it was built from (no exclusion needed, any insertion order) -/
 theorem legacy_match_declared (ks : List Key) (m rem : Str) (k : Key) (vals : List Str)
     (h : legacyMatchOf ks m rem = some (k, vals)) : k ∈ ks := by
-  obtain ⟨ext, path, e0, _, _⟩ := match_sound.1 (legacyRootOf ks) _ [] (k, vals) h
+  obtain ⟨ext, path, e0, _, _, _⟩ := match_sound.1 (legacyRootOf ks) _ [] (k, vals) h
   rcases build_paths ks emptyNode (path, k) e0 with h0 | ⟨h1, _⟩
   · simp [paths_empty] at h0
   · exact h1
@@ -831,6 +832,100 @@ theorem gorilla_refines_spec_literal_wins (e : Bool) (d : Doc) (hd : PlainDoc d)
     exfalso
     exact hmatch0 r0 hmk0 (hwin r0 hr0 (by rw [hn0, hnt]; omega))
 
+/-! ## the legacy model against the spec, on documents without servers -/
+
+/- Full statement (false for the code, finding #14): a route returned by the legacy router is a candidate of the spec.
+   What holds: … when every bound value is non-empty and neither the request path nor the returned template ends in '/'
+   (document without servers, no `{name*}` wildcard, method names without '/', '{' or space). -/
+theorem legacy_refines_spec_sound_partial (setSrv e : Bool) (d : Doc) (hs : d.servers = []) (hps : ∀ p ∈ d.paths, p.servers = [])
+    (ks : List Key) (hks : ∀ k ∈ ks, k ∈ docKeys d) (r : Req) (t m : Str) (ps : List (Str × Str)) (sv : SrvRef)
+    (h : legacyFindOrd setSrv d ks r = .route t m ps sv)
+    (hmeth : '/' ∉ m ∧ '{' ∉ m ∧ ' ' ∉ m ∧ ' ' ∉ r.method)
+    (ht : t.head? = some '/') (htl : t.getLast? ≠ some '/') (hrl : r.path.getLast? ≠ some '/')
+    (hne : ∀ k vals, legacyMatchOf ks r.method r.path = some (k, vals) → (∀ v ∈ vals, v ≠ []) ∧ NoWildcard k.toks) :
+    m = r.method ∧ sv = .none ∧ ∃ c ∈ specCands e d r, c.template = t ∧ c.server = .none ∧ c.declares = true := by
+  have hbuild : legacyBuildOK d = true := by
+    unfold legacyFindOrd at h
+    cases hb : legacyBuildOK d with
+    | true => rfl
+    | false => simp [hb] at h
+  obtain ⟨si, sp, rem, k, vals, hsrv, hmatch, hkt, hkm, hsv, ⟨pd, hpd, hpt, hpm⟩, _⟩ :=
+    legacy_route_sound_partial setSrv d ks hks r t m ps sv h
+  have hsrv' := (legacy_server_none d r [] r.path).2 ⟨hs, rfl, rfl⟩
+  rw [hsrv'] at hsrv
+  simp only [Option.some.injEq, Prod.mk.injEq] at hsrv
+  obtain ⟨rfl, rfl, rfl⟩ := hsrv
+  simp only at hsv
+  obtain ⟨hvne, hnw⟩ := hne k vals hmatch
+  -- the path of the trie that was followed is the key's own
+  obtain ⟨ext, path, e0, e1, e3, e4⟩ := match_sound.1 (legacyRootOf ks) _ [] (k, vals) hmatch
+  simp only [List.nil_append] at e1
+  subst e1
+  have hpath : path = k.sufs := by
+    rcases build_paths ks emptyNode (path, k) e0 with h0 | ⟨_, h2⟩
+    · simp [paths_empty] at h0
+    · exact h2
+  subst hpath
+  have hspell := e3 hvne (key_sufs_wf k)
+  -- the looked-up string has no trailing slash
+  have hlast : (r.method ++ ' ' :: r.path).getLast? ≠ some '/' := by
+    cases hp : r.path with
+    | nil => simp
+    | cons c cs =>
+      have e : r.method ++ ' ' :: (c :: cs) = (r.method ++ [' ']) ++ (c :: cs) := by simp
+      rw [e, getLast?_append_of_ne_nil _ (by simp), ← hp]
+      exact hrl
+  rw [stripSlashes_id hlast] at hspell
+  -- the key's tokens
+  have hk : k ∈ docKeys d := hks k (legacy_match_declared ks _ _ _ _ hmatch)
+  have htok : (tokenize k.str).isSome = true := by
+    unfold legacyBuildOK at hbuild
+    exact List.all_eq_true.1 hbuild k hk
+  cases hto : tokenize k.str with
+  | none => rw [hto] at htok; simp at htok
+  | some toks =>
+    have hstr : k.str = k.method ++ ' ' :: k.template := rfl
+    rw [hstr, hkt, hkm] at hto
+    obtain ⟨toks', rfl, htl'⟩ := key_toks m t hmeth.1 hmeth.2.1 ht htl toks hto
+    have hsufs : k.sufs = Suf.const (m ++ [' ']) :: toks'.map Tok.suf := by
+      unfold Key.sufs Key.toks
+      rw [hstr, hkt, hkm, hto]
+      rfl
+    have hktoks : k.toks = Tok.const (m ++ [' ']) :: toks' := by
+      unfold Key.toks
+      rw [hstr, hkt, hkm, hto]
+      rfl
+    rw [hsufs] at hspell e4
+    simp only [spell, Option.map_eq_some_iff] at hspell
+    obtain ⟨x, hx, hxe⟩ := hspell
+    have hxe' : m ++ ' ' :: x = r.method ++ ' ' :: r.path := by simpa using hxe
+    obtain ⟨hmm, rfl⟩ := split_at_space m r.method x r.path hmeth.2.2.1 hmeth.2.2.2 hxe'
+    have hnw' : NoWildcard toks' := by
+      intro tk htk n
+      exact hnw tk (by rw [hktoks]; simp [htk]) n
+    have hfill := ssubst_of_spell _ t toks' htl' hnw' vals r.path hx
+    have hslash : ∀ v ∈ vals, '/' ∉ v := by
+      apply varVals_slashfree (toks'.map Tok.suf) vals (by simpa [VarVals] using e4) ?_ r.path hx
+      intro s hs' heq
+      simp only [List.mem_map] at hs'
+      obtain ⟨tk, htk, rfl⟩ := hs'
+      cases tk with
+      | const p => simp [Tok.suf] at heq
+      | var n => simp [Tok.suf] at heq
+      | all n => exact hnw' _ htk n rfl
+    refine ⟨hmm, hsv, ⟨t, (svarNames (sparseS t)).zip vals, pd.methods.contains r.method, SrvRef.none⟩, ?_, rfl, rfl, ?_⟩
+    · simp only [specCands, List.mem_flatMap]
+      refine ⟨pd, hpd, ?_⟩
+      have heff : effServers d pd = [] := by simp [effServers, hps pd hpd, hs, tagFrom]
+      unfold specCandsPath
+      rw [heff]
+      simp only [candsFor, List.mem_filterMap]
+      refine ⟨(vals, []), ?_, by simp [hpt]⟩
+      rw [hpt]
+      exact (smatchP_iff _ _ _ _).2 ⟨fun v hv => ⟨hvne v hv, hslash v hv⟩, r.path, hfill, by simp⟩
+    · simp only [List.contains_iff_mem, decide_eq_true_eq]
+      rw [← hmm]; exact hpm
+
 /-! ## witnesses: inside each exclusion class the modelled code really differs from the spec -/
 
 open W in
@@ -1031,5 +1126,13 @@ example : PlainDoc dTwo ∧ PlainDoc dPathSrv ∧ leakShape (inMatchingOrder dTw
   refine ⟨?_, ?_, by decide +kernel, by decide +kernel, by decide +kernel⟩
   · unfold PlainDoc PlainRel; decide +kernel
   · unfold PlainDoc PlainRel; decide +kernel
+
+open W in
+/-- the hypotheses of `legacy_refines_spec_sound_partial` hold for GET /a/zz on the server-less document d40: one non-empty
+    binding, no wildcard token, no trailing slashes -/
+example : d40.servers = [] ∧ (∀ p ∈ d40.paths, p.servers = []) ∧
+    legacyMatchOf (docKeys d40) get (s "/a/zz") = some (⟨get, s "/a/{x}"⟩, [s "zz"]) ∧
+    (⟨get, s "/a/{x}"⟩ : Key).toks = [.const (s "GET "), .const (s "/"), .const (s "a"), .const (s "/"), .var (s "x")] ∧
+    legacyFind d40 (req "GET" "/a/zz") = .route (s "/a/{x}") get [(s "x", s "zz")] .none := by decide +kernel
 
 end KinModel.Props.C09
